@@ -21,14 +21,15 @@ class Unknown(Exception):
 class Desc:
     """abstract argument: kind in ndarray | list | tuple | CameraViewPort | NoneType | str | int ; shape/len where meaningful"""
 
-    def __init__(self, kind, shape=None, length=None):
+    def __init__(self, kind, shape=None, length=None, dtype=None):
         self.kind = kind
         self.shape = shape
         self.length = length
+        self.dtype = dtype      # dtype literal of an ndarray when the evaluation should know it ("<f4"), else unknown
 
     def __repr__(self):
         if self.kind == "ndarray":
-            return f"ndarray{self.shape}"
+            return f"ndarray{self.shape}" + (f"[{self.dtype}]" if self.dtype else "")
         if self.length is not None:
             return f"{self.kind}(len {self.length})"
         return self.kind
@@ -136,7 +137,7 @@ class Evaluator:
                 if n.attr == "dtype":
                     if d.kind != "ndarray":
                         raise Raises("AttributeError")
-                    return ("sym", "dtype")
+                    return ("sym", f"np.dtype({d.dtype!r})") if d.dtype else ("sym", "dtype")
                 raise Unknown(n.attr)
             return ("sym", norm(n))
         if isinstance(n, ast.Subscript) and not isinstance(n.slice, ast.Slice):
